@@ -258,6 +258,17 @@ class Scanner:
                     continue
                 if dn in CACHE_DECORATORS:
                     s = self._add("cache-decorator", m, "%s@%s" % (q, dn), q, d, "@" + " ".join(ast.unparse(d).split())[:80], fn, None)
+                    if s is not None and dn in ("lru_cache", "cache"):
+                        decos = {_deco_name(x) for x in fn.decorator_list}
+                        first = (fn.args.posonlyargs + fn.args.args)[:1]
+                        plain = cls is None or "staticmethod" in decos
+                        if plain and not (first and first[0].arg in ("self", "cls")):
+                            # candidate for a transparent cache: keyed by ALL arguments of a function that has no receiver;
+                            # confirmed in check_sites if the function reads no persistent state
+                            s.key_verdict = "all-arguments"
+                            s.key_detail = "functools.%s on a function without receiver: the key is the complete argument list" % dn
+                            local, glob = _local_names(fn)
+                            s.shared_by = sorted({n.id for n in walk_no_nested(fn) if isinstance(n, ast.Name) and isinstance(n.ctx, ast.Load) and n.id not in local} | set(glob))
                     continue
                 # repository-defined decorator: closure / default-argument state of the decorator written by its wrapper
                 base = d.func if isinstance(d, ast.Call) else d
@@ -469,6 +480,7 @@ def relevant_sites(repo, root_funcs, cg=None, module_scope=()):
     for f in closure:
         names.setdefault(f.module.relpath, set()).add(f.qualname)
     sites = Scanner(repo).run()
+    relevant_sites.last_all = sites
     out = []
     for s in sites:
         def inside(q, mod):
@@ -529,6 +541,7 @@ def check_sites(ctx, roots=None):
     if not roots and not loose:
         raise AnalysisError("history-independence pass: the rule recorded no analysed function (ctx.analysed) to take the call closure of")
     sites, closure = relevant_sites(ctx.repo, roots, cg, loose)
+    all_sites = relevant_sites.last_all
     ctx.extra["history_scope_functions"] = len(closure)
     ctx.extra["persistent_state_sites"] = ["%s %s::%s written by %s" % (s.kind, s.module, s.state, s.writer) for s in sites]
     undecided = []
@@ -546,6 +559,10 @@ def check_sites(ctx, roots=None):
                       "result depends on the call history: the store %s (%s) is created once and shared by the wrapped functions %s, but its key does not "
                       "name the function: a value cached by one of them is returned by the other for an equal key (%s)" % (
                           s.state, s.op, ", ".join(s.shared_by), s.key_detail), file=s.module)
+        elif s.kind == "cache-decorator" and s.key_verdict == "all-arguments" and not (
+                set(s.shared_by) & {x.state for x in all_sites if x.kind == "module-state" and x.module == s.module}):
+            ctx.ob("history-independence", "%s::%s" % (s.module, s.state), True,
+                   "transparent cache: %s, and the function reads no module-level state that any function mutates" % s.key_detail)
         elif s.key_verdict == "sufficient" or (s.key_verdict == "sufficient-per-function" and (len(s.shared_by) <= 1 or "key names the wrapped function" in s.key_detail)):
             ctx.ob("history-independence", "%s::%s" % (s.module, s.state), True, "keyed store whose key covers every input of the stored value: " + s.key_detail)
         else:
